@@ -296,6 +296,10 @@ pub fn run(tier: &str, seed: u64, em: &mut Emitter) {
             for suf in ["x", "abc.def", "", "*", "\u{e9}\u{1F600}", "m.room.message", "."] {
                 strings.push(format!("{s}{suf}"));
             }
+            // a suffix that repeats the spelling itself (a prefix arm must strip its prefix once)
+            strings.push(format!("{s}{s}"));
+            strings.push(format!("{s}{s}x"));
+            strings.push(format!("{s}{s}{s}"));
         }
         strings.extend(UNICODE.iter().map(|s| (*s).to_owned()));
         strings.sort();
